@@ -32,6 +32,9 @@ class RepeatingEventBase(EventBase):
     A base class for events that repeat at a fixed interval
     """
 
+    MAX_EVENTS_PER_SECOND = 1000
+    MAX_MANIFEST_EVENTS = 10000
+
     def create_manifest_context(self, context: dict) -> dict:
         stream = EventStream(
             schemeIdUri=self.schemeIdUri,
@@ -64,7 +67,11 @@ class RepeatingEventBase(EventBase):
             0 <= self.duration <= 0xFFFFFFFF and
             self.start >= 0 and
             self.count >= 0 and
-            self.version in {0, 1})
+            self.version in {0, 1} and
+            # sanity limits: a denser schedule, or a longer list of events in
+            # the manifest, would keep one request busy for minutes
+            (self.interval * self.MAX_EVENTS_PER_SECOND) >= self.timescale and
+            (self.inband or self.count <= self.MAX_MANIFEST_EVENTS))
 
     @abstractmethod
     def get_manifest_event_payload(self, index, presentation_time) -> str:
